@@ -214,10 +214,11 @@ theorem OList.sizeChecked : OList.sys.SizeChecked := by
       show (c ++ [x]).length ≤ max M (List.length c)
       omega
 
-/-- **The size limit is enforced** (hash map, hash set, list: `HashMap.sizeChecked`, `HashSet.sizeChecked`,
+/-- **The size limit is enforced** for all five collections (`Vec.sizeChecked`, `VecDeque.sizeChecked` below —
+since the repair of the event part of finding F9 in /repo —, `HashMap.sizeChecked`, `HashSet.sizeChecked`,
 `OList.sizeChecked`): starting from a snapshot within the limit, a mirror without error never holds more
-than `max_size` elements.  *Partial*: false for vec / deque (finding F9, `f9_insert_exceeds_max_size`) and
-for snapshots that exceed the limit, which `mirror` accepts unchecked. -/
+than `max_size` elements.  *Partial*: the hypothesis `h0` is needed — a snapshot that exceeds the limit is
+accepted unchecked by `mirror` (the remaining part of finding F9). -/
 theorem size_limit_enforced_partial (hS : S.SizeChecked) (c0 : S.C) (cap M : Nat) (h0 : S.size c0 ≤ M)
     (ls : List (MLabel S)) (s : MSt S) (hr : (MSt.init S c0 cap M).run ls = some s) :
     s.task.m.error = none → S.size s.task.m.v ≤ M := by
@@ -283,12 +284,118 @@ theorem size_limit_enforced_partial (hS : S.SizeChecked) (c0 : S.C) (cap M : Nat
         · split at hs <;> cases hs; exact tstep _
   exact (key ls _ s ⟨rfl, fun _ => h0⟩ hr).2
 
-/-- **Finding F9, kernel-checked.**  Vector `[1, 2]`, mirror with `max_size = 2`; the collection does
-`insert(0, 9)`: the mirror applies `Insert` and holds three elements, no error. -/
-theorem f9_insert_exceeds_max_size :
+theorem Vec.sizeChecked : Vec.sys.SizeChecked := by
+  intro M c e c' h
+  have hmax : ∀ n : Nat, n ≤ List.length c → n ≤ max M (List.length c) := fun n hn => by omega
+  cases e with
+  | push x =>
+    simp only [Vec.sys, Vec.applyEv] at h
+    split at h
+    · simp at h
+    · simp at h; subst h; show (c ++ [x]).length ≤ max M (List.length c); omega
+  | insert i x =>
+    simp only [Vec.sys, Vec.applyEv] at h
+    split at h
+    · simp at h
+    · split at h
+      · simp at h
+      · simp at h; subst h; show (c.insertIdx i x).length ≤ max M (List.length c); omega
+  | resize n x =>
+    simp only [Vec.sys, Vec.applyEv] at h
+    split at h
+    · simp at h
+    · rename_i hn
+      simp at h; subst h
+      show (resize c n x).length ≤ max M (List.length c)
+      rw [resize_length]; omega
+  | pop => simp only [Vec.sys, Vec.applyEv] at h; simp at h; subst h; exact hmax _ (by simp)
+  | set i x =>
+    simp only [Vec.sys, Vec.applyEv] at h
+    split at h
+    · simp at h
+    · simp at h; subst h; exact hmax _ (by simp)
+  | remove i =>
+    simp only [Vec.sys, Vec.applyEv] at h
+    split at h
+    · simp at h
+    · simp at h; subst h; exact hmax _ (by show (List.eraseIdx c i).length ≤ List.length c; rw [List.length_eraseIdx]; split <;> omega)
+  | swapRemove i =>
+    simp only [Vec.sys, Vec.applyEv] at h
+    split at h
+    · simp at h
+    · simp at h; subst h; exact hmax _ (swapRemove_length_le c i)
+  | fill x => simp only [Vec.sys, Vec.applyEv] at h; simp at h; subst h; exact hmax _ (by simp)
+  | truncate n => simp only [Vec.sys, Vec.applyEv] at h; simp at h; subst h; exact hmax _ (by simp [List.length_take]; omega)
+  | retain keep => simp only [Vec.sys, Vec.applyEv] at h; simp at h; subst h; exact hmax _ (retainFrom_length_le _ _ _)
+  | retainNot rm => simp only [Vec.sys, Vec.applyEv] at h; simp at h; subst h; exact hmax _ (retainFrom_length_le _ _ _)
+  | clear => simp only [Vec.sys, Vec.applyEv] at h; simp at h; subst h; exact hmax _ (by simp)
+  | shrinkToFit => simp only [Vec.sys, Vec.applyEv] at h; simp at h; subst h; exact hmax _ (by simp)
+
+theorem VecDeque.sizeChecked : VecDeque.sys.SizeChecked := by
+  intro M c e c' h
+  have hmax : ∀ n : Nat, n ≤ List.length c → n ≤ max M (List.length c) := fun n hn => by omega
+  cases e with
+  | pushBack x =>
+    simp only [VecDeque.sys, VecDeque.applyEv] at h
+    split at h
+    · simp at h
+    · simp at h; subst h; show (c ++ [x]).length ≤ max M (List.length c); omega
+  | pushFront x =>
+    simp only [VecDeque.sys, VecDeque.applyEv] at h
+    split at h
+    · simp at h
+    · simp at h; subst h; show (x :: c).length ≤ max M (List.length c); omega
+  | insert i x =>
+    simp only [VecDeque.sys, VecDeque.applyEv] at h
+    split at h
+    · simp at h
+    · split at h
+      · simp at h
+      · simp at h; subst h; show (c.insertIdx i x).length ≤ max M (List.length c); omega
+  | resize n x =>
+    simp only [VecDeque.sys, VecDeque.applyEv] at h
+    split at h
+    · simp at h
+    · rename_i hn
+      simp at h; subst h
+      show (resize c n x).length ≤ max M (List.length c)
+      rw [resize_length]; omega
+  | popBack => simp only [VecDeque.sys, VecDeque.applyEv] at h; simp at h; subst h; exact hmax _ (by simp)
+  | popFront => simp only [VecDeque.sys, VecDeque.applyEv] at h; simp at h; subst h; exact hmax _ (by simp)
+  | set i x =>
+    simp only [VecDeque.sys, VecDeque.applyEv] at h
+    split at h
+    · simp at h
+    · simp at h; subst h; exact hmax _ (by simp)
+  | remove i =>
+    simp only [VecDeque.sys, VecDeque.applyEv] at h
+    split at h
+    · simp at h
+    · simp at h; subst h
+      exact hmax _ (by show (List.eraseIdx c i).length ≤ List.length c; rw [List.length_eraseIdx]; split <;> omega)
+  | swapRemoveBack i =>
+    simp only [VecDeque.sys, VecDeque.applyEv] at h
+    split at h
+    · simp at h
+    · simp at h; subst h; exact hmax _ (swapRemove_length_le c i)
+  | swapRemoveFront i =>
+    simp only [VecDeque.sys, VecDeque.applyEv] at h
+    split at h
+    · simp at h
+    · simp at h; subst h; exact hmax _ (swapRemoveFront_length_le c i)
+  | truncate n => simp only [VecDeque.sys, VecDeque.applyEv] at h; simp at h; subst h; exact hmax _ (by simp [List.length_take]; omega)
+  | retain keep => simp only [VecDeque.sys, VecDeque.applyEv] at h; simp at h; subst h; exact hmax _ (retainFrom_length_le _ _ _)
+  | retainNot rm => simp only [VecDeque.sys, VecDeque.applyEv] at h; simp at h; subst h; exact hmax _ (retainFrom_length_le _ _ _)
+  | clear => simp only [VecDeque.sys, VecDeque.applyEv] at h; simp at h; subst h; exact hmax _ (by simp)
+  | shrinkToFit => simp only [VecDeque.sys, VecDeque.applyEv] at h; simp at h; subst h; exact hmax _ (by simp)
+
+/-- **Finding F9 (event part), repaired in /repo.**  Vector `[1, 2]`, mirror with `max_size = 2`; the
+collection does `insert(0, 9)`: the mirror now reports `MaxSizeExceeded` (before the repair it applied the
+`Insert` and held three elements without error). -/
+theorem f9_insert_is_refused :
     ∃ s, (MSt.init Vec.sys [1, 2] 4 2).run [.emit (.change (.insert 0 9)), .consume] = some s ∧
-      s.task.m.v = [9, 1, 2] ∧ s.task.m.error = none ∧ s.task.m.maxSize = 2 :=
-  ⟨_, rfl, rfl, rfl, rfl⟩
+      s.task.m.error = some (.maxSizeExceeded 2) ∧ s.task.m.maxSize = 2 :=
+  ⟨_, rfl, rfl, rfl⟩
 
 /-! ## the append-only list never lags -/
 
